@@ -67,6 +67,8 @@ func functionValueType(returnTypes []ValueType) ValueType {
 
 	if len(returnTypes) > 1 {
 		valueType = NewValueType(DATA_TYPE_MULTIPLE, false)
+	} else if len(returnTypes) == 0 {
+		valueType = NewValueType(DATA_TYPE_UNKNOWN, false)
 	} else {
 		valueType = returnTypes[0]
 	}
